@@ -77,5 +77,23 @@ TResults ==
               Ev.dig_arviz_warm = Ev.dig_warm))
   /\ Step
 
-TNext == TResults
+\* built-in kernels that report errors of their own (NaN ratio, NaN correction of a user-written proposal): every code
+\* found in the stored transition infos is documented in the kernel's error book, and the summary lists exactly these
+\* codes with the book's message and the direct per-chain counts (overall and posterior)
+TBuiltin ==
+  /\ IsEvent("builtin_codes")
+  /\ Chk("run_and_reports_completed", Ev.crash = "")
+  /\ \A i \in 1..Len(Ev.kernels) :
+       LET k == Ev.kernels[i] IN
+       /\ Chk("every_reported_error_code_is_documented_in_the_kernels_error_book",
+              SeqToSet(k.seen) \subseteq SeqToSet(k.book))
+       /\ Chk("summary_is_produced_for_a_run_with_errors", k.summary_error = "")
+       /\ Chk("summary_counts_per_kernel_code_chain_phase_with_message",
+              /\ Len(k.summary) = Len(k.direct)
+              /\ \A j \in 1..Len(k.direct) :
+                   /\ k.summary[j].code = k.direct[j].code /\ k.summary[j].msg_in_book
+                   /\ k.summary[j].total = k.direct[j].total /\ k.summary[j].post = k.direct[j].post)
+  /\ Step
+
+TNext == TResults \/ TBuiltin
 =============================================================================
